@@ -22,7 +22,7 @@ func main() {
 	twin.Rekey = rekey
 	twin.RunAll(r, nil, key, twin.Options{}, par.Opts{})
 	r.Set("exhaustive", true)
-	r.Set("rule", "programs = control-flow contexts nested around payload statements (destination x source x form), pool shown after every statement, 3 input tuples; enumerated completely per family (a: nesting, b: statement pairs, c: triple nesting, d: loop-variable capture, e: boolean expressions over 10 operand kinds x 4 operator forms x 6 use forms re-evaluated while operand values change); non-trivial = output lines not all equal; states = distinct program outputs; transitions = Show steps")
+	r.Set("rule", "programs = control-flow contexts nested around payload statements (destination x source x form), pool shown after every statement, 3 input tuples; enumerated completely per family (a: nesting, b: statement pairs, c: triple nesting, d: loop-variable capture, e: boolean expressions over 11 operand kinds x 4 operator forms x 6 use forms re-evaluated while operand values change); non-trivial = output lines not all equal; states = distinct program outputs; transitions = Show steps")
 	r.Finish()
 }
 
@@ -34,6 +34,7 @@ func key(c twin.Case, n, i twin.Obs) string { return c.Name }
 //
 //	a C1>C2/p  -> a C2/p, else a C1/p      b C/p1;p2 -> a C/p1, else a C/p2
 //	c C1>C2>C3/p -> a C2>C3/p, a C1>C3/p ... -> single contexts
+//	any of them -> a C/"_ = a" when a context of the chain fails with the empty payload
 //
 // A program with no failing sub-program is minimal and is its own finding.
 func rekey(name, key string, failing map[string]bool) string {
@@ -43,11 +44,30 @@ func rekey(name, key string, failing map[string]bool) string {
 		head, _, _ := strings.Cut(f[1], "/")
 		return "e type-assertion-operand " + head
 	}
+	if len(f) >= 2 && f[0] == "e" && strings.Contains(name, "(*pb)") {
+		// one root cause whatever the other operand: a pointer dereference as LEFT operand, re-pointed between evaluations
+		head, _, _ := strings.Cut(f[1], "/")
+		return "e deref-operand " + head
+	}
 	if len(f) < 2 || f[0] == "d" || f[0] == "e" {
 		return name
 	}
 	ctxs, pay, _ := strings.Cut(f[1], "/")
 	cl := strings.Split(ctxs, ">")
+	// a context that misbehaves with the empty payload explains every program nested in it (innermost first)
+	for k := len(cl) - 1; k >= 0; k-- {
+		if c := "a " + cl[k] + "/_ = a"; failing[c] {
+			return c
+		}
+	}
+	// ... and so does a pair of nested contexts that misbehaves with the empty payload
+	for k := len(cl) - 1; k >= 1; k-- {
+		for j := k - 1; j >= 0; j-- {
+			if c := "a " + cl[j] + ">" + cl[k] + "/_ = a"; failing[c] {
+				return c
+			}
+		}
+	}
 	var cands []string
 	switch f[0] {
 	case "a", "c":
